@@ -29,6 +29,10 @@ C40 -- 5 of 6 caught (exit 1): failed job not re-queued (stuck + trace); job re-
   Close keeps the queue and workers drain it (run-after-close: more late starts than workers + trace).
   Known behaviour of the unchanged code, reported as dissolve:job-started-after-close-returned when the schedule occurs (not forceable): a job
   dequeued before Close starts after Close() returned.
+  Seeded changes (round 2): (1) Wait's empty check and park in separate critical sections -> dissolve:job-never-executed:worker-parked (mode
+  dissolve_stress; spec: AtomicWait = FALSE violates SomeoneWillLook, lostwake.cfg); (2) Close only sets `closed`, queued jobs run after Close ->
+  dissolve:queued-jobs-run-after-close (mode dissolve_probe; spec: QueuedAtCloseNeverStarts).  My earlier "Close keeps cnt/nodes is an equivalent
+  mutant" was wrong: workers woken by a preceding Add's Signal reach Remove() after Close.
   Not caught: Close sets closed but keeps cnt/nodes -- an equivalent mutant (Wait/Remove never reach the kept items).
   A resize that loses a job panics inside a worker goroutine and kills the harness process: exit 2 (inconclusive), not 1.
 C42 -- 7 of 7 effective mutants caught (exit 1), on a tree with the putItemBuf fix: nextLogBase2 one class low for 2^i+1 (class table +
@@ -171,7 +175,25 @@ def c40(c):
         # liveness under fairness (no VIEW, no state constraint): Submitted ~> Succeeded \/ closed; workers exit after Close
         r = c.tlc_exhaustive('Dissolve', 'Dissolve', 'live.cfg' if quick else 'live_thorough.cfg', workers=8, timeout=2400)
         c.log('Dissolve liveness (FairSpec): %d distinct states' % r['distinct'])
+        # what the design relies on: with Wait split into check-empty / park (AtomicWait = FALSE) TLC must find the lost wake-up
+        r = c.tlc('Dissolve', 'Dissolve', 'lostwake.cfg', workers=2, timeout=300, expect_violation=True)
+        c.cov['model_counterexample_nonatomic_wait'] = bool(r['error'] and 'SomeoneWillLook' in r['error'])
+        if not c.cov['model_counterexample_nonatomic_wait']:
+            raise vf.Inconclusive('lostwake.cfg: the non-atomic Wait variant did not produce the lost wake-up counterexample: %s' % r['out'][-1500:])
+        c.log('Dissolve with non-atomic Wait: TLC finds the lost wake-up (job queued, only worker parked), as expected')
     binp = c.go_build('writer')
+    # deterministic probe: jobs still QUEUED at Close never start (Close discards the queue atomically)
+    pr = c.harness(binp, 'dissolve_probe', {'rounds': 40 if quick else 400, 'workers': 4}, timeout=300)
+    c.absorb(pr)
+    c.cov['evaluations'] += pr['executed']
+    c.cov['close_probe'] = {'rounds': pr['executed'], 'clean': pr['completed'], 'counters': pr['counters']}
+    c.log('close probe: %d rounds, %d clean' % (pr['executed'], pr['completed']))
+    # lost wake-up stress: single-worker dissolvers, Submit aimed at the moment the worker goes idle
+    st = c.harness(binp, 'dissolve_stress', {'dissolvers': 4, 'millis': 10000 if quick else 150000}, timeout=900)
+    c.absorb(st)
+    c.cov['evaluations'] += st['counters'].get('stress_submits', 0)
+    c.cov['idle_submit_stress'] = {'dissolvers': st['executed'], 'clean': st['completed'], 'submits': st['counters'].get('stress_submits', 0)}
+    c.log('idle-submit stress: %d submits on %d single-worker dissolvers, %d clean' % (st['counters'].get('stress_submits', 0), st['executed'], st['completed']))
     nruns = 1500 if quick else 12000
     ntr = 120 if quick else 800
     dr = c.harness(binp, 'dissolve', {'n': nruns, 'traces': ntr}, timeout=900)
@@ -205,6 +227,11 @@ def c40(c):
                       'queue.Wait() returns, with no harness-controllable step in between, so a directed scenario -- Close called while 2-3 workers cycle through instant jobs -- makes the schedule '
                       'likely but cannot force it); the specification itself models what the code does (no dequeue and no re-queue after Close, lateStarts <= 1 per worker)',
                       'the two clauses of the statement conflict at Close (it discards queued jobs): reading kept = retry-until-success while open',
+                      'late starts are split by class: dissolve:job-started-after-close-returned = a job a worker had already removed from the queue (random runs, or a single late start in a probe round); '
+                      'dissolve:queued-jobs-run-after-close = jobs still queued at Close (probe under GOMAXPROCS(1): >= 2 late starts in a round, confirmed by immediate re-execution); '
+                      'the spec states the distinction as QueuedAtCloseNeverStarts',
+                      'lost wake-up (Wait must check empty and park in one critical section): spec constant AtomicWait, invariant SomeoneWillLook; on the real code a 10 s (quick) / 150 s (thorough) stress '
+                      'with a 3 s + 2 s watchdog -- a window of tens of nanoseconds can be missed by the stress, the verdict "held" is only as strong as the time spent',
                       'each job is submitted once; jobs fail a finite number of times',
                       'liveness on the real code is a bounded-time check (5 s; typical completion < 5 ms)']
 
